@@ -302,7 +302,7 @@ func c05up4(c *ctx) {
 // fault), but what the agent itself holds for the sessions - UE addresses, TEIDs, the gauge - must be returned all the same: the
 // association and its store are gone, nothing could ever return them later.
 func c05TeardownFault(c *ctx) {
-	for _, how := range []string{"release", "timeout"} {
+	for _, how := range []string{"release", "timeout", "report65"} {
 		o := sysh.Opts{P4: true, UEAlloc: true, Pool: "10.62.0.0/28", ReadTimeout: 600}
 		if how == "timeout" {
 			o.ReadTimeout = 1
@@ -318,6 +318,7 @@ func c05TeardownFault(c *ctx) {
 		}
 		w.assoc(0)
 		n := 0
+		var hs []*hsess
 		for k := 0; k < 8 && n < 3; k++ {
 			pdrs, fars, qers := w.genSession(2) // UP-chosen F-TEID, UP-allocated UE address
 			for i := range pdrs {
@@ -326,6 +327,7 @@ func c05TeardownFault(c *ctx) {
 			w.nextCP++
 			h, ob := w.est(0, w.nodes[0], w.nextCP, pdrs, fars, qers, "c05-teardown-fault")
 			if h != nil {
+				hs = append(hs, h)
 				n++
 			} else if os.Getenv("VERIF_DEBUG") != "" {
 				fmt.Fprintf(os.Stderr, "tdfault est refused: %+v\n", ob)
@@ -335,6 +337,12 @@ func c05TeardownFault(c *ctx) {
 		w.s.P4.Fault = func(int, []sysh.P4Up) (string, int, int) { return "rpc", -1, 0 }
 		if how == "release" {
 			w.release(0)
+		} else if how == "report65" {
+			// every session ends by a Session Report Response 'session context not found': the control plane has no such session and
+			// will never delete it
+			for _, h := range hs {
+				w.endBy(0, "report65", h)
+			}
 		} else {
 			time.Sleep(1500 * time.Millisecond)
 		}
